@@ -686,6 +686,17 @@ fn onto_case(rng: &mut Rng, prop: &str, tier: &str, idx: usize) -> Case {
             "C03" => c.op("oracle ic 0".to_string()),
             _ => {}
         }
+        if path == 0 {
+            // ... and through `from_bytes(as_bytes())`: every one of the many parents is written
+            c.op("roundtrip 0 9".to_string());
+            c.op("dump 9".to_string());
+            match prop {
+                "C01" => c.op("oracle closure 9".to_string()),
+                "C02" => c.op("oracle inherit 9".to_string()),
+                "C03" => c.op("oracle ic 9".to_string()),
+                _ => {}
+            }
+        }
         c.nontrivial = true;
         return c;
     }
@@ -1166,6 +1177,18 @@ fn c19(rng: &mut Rng, idx: usize) -> Case {
         facts_to_fops(rng, &f, &flags, fv, 0, true, &mut c);
     } else {
         facts_to_prog(rng, &f, &ProgOpts { shuffle: true, failing_permille: 0, build_defaults: true, slot: 0 }, &mut c);
+        // rejected links below the two roots (the child is not a term): they leave nothing in the
+        // children of HP:1 / HP:118, so nothing in the modifier roots / categories
+        if let Some(i) = c.ops.iter().position(|o| o == "connect") {
+            let used: Vec<u32> = f.terms.iter().map(|t| t.0).collect();
+            for root in [1u32, 118] {
+                if rng.chance(2, 3) {
+                    let absent = gen_ids(rng, 1, &used)[0];
+                    c.ops.insert(i, format!("parent {root} {absent}"));
+                    c.stat("rejected_links_below_a_root", 1);
+                }
+            }
+        }
     }
     c.op("dump 0".to_string());
     c.op("oracle defaults 0".to_string());
@@ -1265,6 +1288,19 @@ fn c10(rng: &mut Rng, idx: usize) -> Case {
         }
         // with rejected calls (absent terms, also with record ids that are never registered)
         facts_to_prog(rng, &f, &ProgOpts { shuffle: true, failing_permille: 300, build_defaults: with_roots, slot: 0 }, &mut c);
+        // a record registered under an EMPTY name (which then is its name) before the calls that
+        // carry its non-empty name
+        for kind in KINDS {
+            if rng.chance(1, 2) {
+                let pfx_a = format!("ann {kind} ");
+                let pfx_b = format!("addrec {kind} ");
+                if let Some(i) = c.ops.iter().position(|o| o.starts_with(&pfx_a) || o.starts_with(&pfx_b)) {
+                    let id = c.ops[i].split(' ').nth(2).unwrap_or("1").to_string();
+                    c.ops.insert(i, format!("addrec {kind} {id} {}", name("")));
+                    c.stat("records_registered_with_empty_name", 1);
+                }
+            }
+        }
     }
     // a record id is a key exactly if a successful call registered it
     c.op("dump 0".to_string());
